@@ -92,7 +92,7 @@ def check_C09(c):
         hists = c.rng.sample(hists, min(len(hists), 400))
     for h in hists:
         jobs.append(('tr_filehist', dict(hist=h['hist'], how=c.rng.choice(['path', 'path', 'Path', 'fileobj']))))
-    traces = pmake(jobs, procs=12)
+    traces = pmake(jobs, procs=12, optimized_share=0.02)
     c.judge('J_Stream', traces, 'stream', nontrivial=lambda t: (t['kind'] == 'stream' and len(t['outs'][0]['graphs']) >= 1) or
             (t['kind'] == 'dumps' and len(t['graphs']) >= 1))
     c.rule = ('every text up to length %d over ( ) a / # : space LF CR VT U+0085 U+2028 and samples of longer ones; streams of 0-3 random '
@@ -250,7 +250,7 @@ def check_C17(c):
                         (['--model', '/nonexistent/model.json'], True), (['--rearrange'], True), (['--check', '--quiet'], False), ([], False),
                         (['--reconfigure', 'original,random'], False), (['--rearrange', 'inverted-last,attributes-first'], False)]:
         jobs.append(('tr_api_args', dict(args=args, usage_error=usage)))
-    api = pmake(jobs)
+    api = pmake(jobs, optimized_share=0.02)
     c.judge('J_Api', api, 'api-surface', gating=False)
     c.rule = ('call histories of 10 calls generated by TLC in simulation mode from Purity.tla (29 operations: interpret, configure, '
               'reconfigure, format, encode, decode, a re-laid-out copy, canonicalize_roles, the four transformations, graph queries, errors, diagnostics, triple-conjunction round trip, '
